@@ -41,4 +41,439 @@ theorem F_close (fuel : Nat) (l : L) (r : Rune) (rs : List Rune) (h : l.right = 
   rw [List.map_take] at hp1 hp2
   simp [L.next_snd_eq, h, hasPrefix_eq, hrb, hp1, hp2]
 
+/-! ## scanning command text -/
+
+/-- what may follow a piece of command text so that the loop's two-rune look-ahead behaves as in
+    `cmdScanOK` (where a newline follows): something, not beginning with `{` nor with `}}` -/
+def FolOK (fol : List Rune) : Prop :=
+  fol ≠ [] ∧ (∀ r, fol.head? = some r → r.cp ≠ LBRACE) ∧ (fol.take 2).map (·.cp) ≠ [RBRACE, RBRACE]
+
+theorem FolOK.of_head {x : Rune} (xs : List Rune) (h1 : x.cp ≠ LBRACE) (h2 : x.cp ≠ RBRACE) : FolOK (x :: xs) := by
+  refine ⟨by simp, ?_, ?_⟩
+  · intro r hr; simp at hr; subst hr; exact h1
+  · cases xs <;> simp [h2]
+
+/-- the closing brace followed by something that is not a brace -/
+theorem FolOK.close (rest : List Rune) (hrest : ∀ r, rest.head? = some r → r.cp ≠ RBRACE ∧ r.cp ≠ LBRACE) :
+    FolOK (asc RBRACE :: rest) := by
+  refine ⟨by simp, ?_, ?_⟩
+  · intro r hr; simp at hr; subst hr; decide
+  · cases rest with
+    | nil => simp
+    | cons y ys => have := (hrest y rfl).1; simp [this]
+
+theorem pair_length {rs : List Rune} {c : Nat} (h : (rs.take 2).map (·.cp) = [c, c]) :
+    ∃ a b rs', rs = a :: b :: rs' ∧ a.cp = c ∧ b.cp = c := by
+  cases rs with
+  | nil => simp at h
+  | cons a rs1 =>
+    cases rs1 with
+    | nil => simp at h
+    | cons b rs' => exact ⟨a, b, rs', rfl, by simpa using h⟩
+
+theorem cmdScanOK_cons (r : Rune) (rest : List Rune) (h : cmdScanOK (r :: rest) = true) :
+    r.cp ≠ NL ∧
+    ((((rest.take 2).map (·.cp) = [LBRACE, LBRACE] ∨ (rest.take 2).map (·.cp) = [RBRACE, RBRACE]) ∧
+        cmdScanOK (rest.drop 2) = true) ∨
+     ((rest.take 2).map (·.cp) ≠ [LBRACE, LBRACE] ∧ (rest.take 2).map (·.cp) ≠ [RBRACE, RBRACE] ∧
+        r.cp ≠ RBRACE ∧ r.cp ≠ HASH ∧ isASCII r = true ∧ cmdScanOK rest = true)) := by
+  rw [cmdScanOK] at h
+  by_cases hnl : r.cp = NL
+  · simp [hnl] at h
+  · refine ⟨hnl, ?_⟩
+    by_cases hp : (rest.take 2).map (·.cp) = [LBRACE, LBRACE] ∨ (rest.take 2).map (·.cp) = [RBRACE, RBRACE]
+    · left
+      refine ⟨hp, ?_⟩
+      rw [List.map_take] at hp
+      rcases hp with hp | hp <;> simpa [hnl, hp] using h
+    · right
+      have hp1 : (rest.take 2).map (·.cp) ≠ [LBRACE, LBRACE] := fun h' => hp (Or.inl h')
+      have hp2 : (rest.take 2).map (·.cp) ≠ [RBRACE, RBRACE] := fun h' => hp (Or.inr h')
+      refine ⟨hp1, hp2, ?_⟩
+      rw [List.map_take] at hp1 hp2
+      simp only [beq_iff_eq, hnl, if_false, hp1, hp2, List.map_take, Bool.or_eq_true] at h
+      by_cases h1 : r.cp = RBRACE
+      · simp [h1] at h
+      · by_cases h2 : r.cp = HASH
+        · simp [h2] at h
+        · by_cases h3 : isASCII r = true
+          · simp [h1, h2, h3] at h
+            exact ⟨h1, h2, h3, h⟩
+          · simp [h1, h2, h3] at h
+
+/-- **the scan**: command text `c` accepted by `cmdScanOK` is taken into the token rune by rune (or in
+    jumps over `{{` / `}}`) whatever admissible text follows it -/
+theorem scan_spec (c : List Rune) : cmdScanOK c = true → ∀ fol, FolOK fol → ∀ (fuel : Nat) (l : L),
+    l.right = c ++ fol → l.right.length < fuel →
+    ∃ fuel' l', lexTaskCommandsF fuel l = lexTaskCommandsF fuel' l' ∧ fol.length < fuel' ∧ l'.right = fol ∧
+      l'.tokRev = c.reverse ++ l.tokRev ∧ l'.left = c.reverse ++ l.left ∧ l'.toks = l.toks := by
+  induction hn : c.length using Nat.strongRecOn generalizing c with
+  | _ n ih =>
+    intro hc fol hfol fuel l hl hfuel
+    cases c with
+    | nil =>
+      exact ⟨fuel, l, rfl, by simpa [hl] using hfuel, by simpa using hl, by simp, by simp, rfl⟩
+    | cons r rest =>
+      have hl' : l.right = r :: (rest ++ fol) := by simpa using hl
+      obtain ⟨fuel0, rfl⟩ : ∃ k, fuel = k + 1 := ⟨fuel - 1, by omega⟩
+      have hfuel0 : (rest ++ fol).length < fuel0 := by rw [hl'] at hfuel; simp at hfuel ⊢; omega
+      obtain ⟨hnl, hcase⟩ := cmdScanOK_cons r rest hc
+      rcases hcase with ⟨hp, hc'⟩ | ⟨hp1, hp2, hrb, hh, ha, hc'⟩
+      · -- a jump
+        obtain ⟨a, b, rest', rfl, hab⟩ : ∃ a b rest', rest = a :: b :: rest' ∧
+            ((a.cp = LBRACE ∧ b.cp = LBRACE) ∨ (a.cp = RBRACE ∧ b.cp = RBRACE)) := by
+          rcases hp with hp | hp
+          · obtain ⟨a, b, rs', h1, h2, h3⟩ := pair_length hp; exact ⟨a, b, rs', h1, Or.inl ⟨h2, h3⟩⟩
+          · obtain ⟨a, b, rs', h1, h2, h3⟩ := pair_length hp; exact ⟨a, b, rs', h1, Or.inr ⟨h2, h3⟩⟩
+        have hstep := F_jump fuel0 l r (a :: b :: rest' ++ fol) hl' hnl (by
+          rcases hab with ⟨h1, h2⟩ | ⟨h1, h2⟩
+          · left; simp [h1, h2]
+          · right; simp [h1, h2])
+        have hm : ((l.next).1.absorb 2).right = rest' ++ fol := by
+          rw [L.absorb_right, L.next_right, hl']; simp
+        obtain ⟨fuel', l', e, hf', hr', ht', hlf', hk'⟩ := ih rest'.length (by subst hn; simp; omega) rest' rfl
+          (by simpa using hc') fol hfol fuel0 _ hm (by rw [hm]; simp at hfuel0 ⊢; omega)
+        have hnr : (l.next).1.right = a :: b :: (rest' ++ fol) := by rw [L.next_right, hl']; simp
+        refine ⟨fuel', l', hstep.trans e, hf', hr', ?_, ?_, ?_⟩
+        · rw [ht', L.absorb_tokRev, hnr, L.next_tokRev hl']; simp
+        · rw [hlf', L.absorb_left, hnr, L.next_left hl']; simp
+        · rw [hk']; simp
+      · -- an ordinary rune
+        have hq1 : ((rest ++ fol).take 2).map (·.cp) ≠ [LBRACE, LBRACE] := by
+          cases rest with
+          | nil =>
+            intro h
+            obtain ⟨a, b, rs', h1, h2, _⟩ := pair_length h
+            exact hfol.2.1 a (by simp at h1; simp [h1]) h2
+          | cons x rest1 =>
+            cases rest1 with
+            | nil =>
+              intro h
+              obtain ⟨a, b, rs', h1, _, h3⟩ := pair_length h
+              simp at h1
+              exact hfol.2.1 b (by simp [h1.2]) h3
+            | cons y rest2 => simpa using hp1
+        have hq2 : ((rest ++ fol).take 2).map (·.cp) ≠ [RBRACE, RBRACE] := by
+          cases rest with
+          | nil => simpa using hfol.2.2
+          | cons x rest1 =>
+            cases rest1 with
+            | nil =>
+              intro h
+              obtain ⟨a, b, rs', h1, h2, _⟩ := pair_length h
+              simp at h1
+              obtain ⟨_, hx⟩ := cmdScanOK_cons x [] hc'
+              rcases hx with ⟨hx, _⟩ | ⟨_, _, hx, _⟩
+              · simp at hx
+              · exact hx (h1.1 ▸ h2)
+            | cons y rest2 => simpa using hp2
+        have hstep := F_plain fuel0 l r (rest ++ fol) hl' hnl hq1 hq2 hrb (by simp [hfol.1]) hh ha
+        have hm : (l.next).1.right = rest ++ fol := by rw [L.next_right, hl']; rfl
+        obtain ⟨fuel', l', e, hf', hr', ht', hlf', hk'⟩ := ih rest.length (by subst hn; simp) rest rfl hc' fol hfol
+          fuel0 _ hm (by rw [hm]; exact hfuel0)
+        refine ⟨fuel', l', hstep.trans e, hf', hr', ?_, ?_, ?_⟩
+        · rw [ht', L.next_tokRev hl']; simp
+        · rw [hlf', L.next_left hl']; simp
+        · rw [hk']; simp
+
+/-! ## how a command ends -/
+
+/-- carriage returns and blanks are command text -/
+theorem cmdScanOK_crsp (c : List Rune) (h : ∀ r ∈ c, r.cp = CR ∨ r.cp = SP) : cmdScanOK c = true := by
+  induction c with
+  | nil => rw [cmdScanOK]
+  | cons r rest ih =>
+    have hr := h r (by simp)
+    have ih' := ih (fun x hx => h x (by simp [hx]))
+    have hnp : ∀ c, c = LBRACE ∨ c = RBRACE → (List.map (fun x => x.cp) rest).take 2 ≠ [c, c] := by
+      intro c hc heq
+      cases rest with
+      | nil => simp at heq
+      | cons x xs =>
+        have hx := h x (by simp)
+        cases xs with
+        | nil => simp at heq
+        | cons y ys => simp at heq; omega
+    rw [cmdScanOK]
+    have h1 := hnp LBRACE (Or.inl rfl)
+    have h2 := hnp RBRACE (Or.inr rfl)
+    rcases hr with hr | hr <;> simp [hr, h1, h2, ih', isASCII]
+
+theorem head?_reverse_ne {prev : List Rune} {c : Nat} (h : endsWithCp prev c = false) :
+    ∀ r, prev.reverse.head? = some r → r.cp ≠ c := by
+  intro r hr
+  rw [List.head?_reverse] at hr
+  simpa [endsWithCp, hr] using h
+
+/-- `CR* LF ws` after a command `prev` held in the token buffer: the command is emitted and the loop
+    goes on at `more` -/
+theorem sep_spec (prev crs ws more lf : List Rune) (hprev : endsWithCp prev CR = false)
+    (hcrs : ∀ r ∈ crs, r.cp = CR) (hws : Ws ws) (hmore : more.dropWhile isSpace = more) (fuel : Nat) (l : L)
+    (ht : l.tokRev = prev.reverse) (hlf : l.left = prev.reverse ++ lf)
+    (h : l.right = crs ++ asc NL :: (ws ++ more)) (hfuel : l.right.length < fuel) :
+    ∃ fuel' l', lexTaskCommandsF fuel l = lexTaskCommandsF fuel' l' ∧ more.length < fuel' ∧ l'.tokRev = [] ∧
+      l'.right = more ∧ views l' = views l ++ [(.command, prev)] := by
+  obtain ⟨fuel1, l1, e1, hf1, r1, t1, lf1, k1⟩ := scan_spec crs (cmdScanOK_crsp crs (fun r hr => Or.inl (hcrs r hr)))
+    (asc NL :: (ws ++ more)) (FolOK.of_head _ (by decide) (by decide)) fuel l h hfuel
+  obtain ⟨fuel2, rfl⟩ : ∃ k, fuel1 = k + 1 := ⟨fuel1 - 1, by simp at hf1; omega⟩
+  have e2 := F_nl fuel2 l1 (asc NL) (ws ++ more) r1 rfl
+  have hm := stripCR_spec crs.reverse (by simpa using hcrs) prev.reverse lf (head?_reverse_ne hprev)
+    (l1.next).1.backup (by simp [t1, ht]) (by simp [lf1, hlf])
+  obtain ⟨m1, m2, m3, m4⟩ := hm
+  refine ⟨fuel2, _, e1.trans e2, ?_, by simp, ?_, ?_⟩
+  · simp at hf1 ⊢; omega
+  · rw [skipWs_right, L.emit_right, m3]
+    simp only [List.reverse_reverse, L.next_backup_right, r1]
+    rw [dropWhile_append_of_all _ _ _ (fun x hx => isSpace_of_cp (hcrs x hx) isSpaceCp_CR)]
+    have : isSpace (asc NL) = true := by decide
+    simp only [List.dropWhile_cons, this, if_true]
+    rw [dropWhile_append_of_all _ _ _ hws, hmore]
+  · rw [views_skipWs, views_emit, views_congr m4, views_congr (L.next_backup_toks _), views_congr k1, m1]
+    simp
+
+/-- the closing brace with nothing in the token buffer (after a separator): nothing is emitted -/
+theorem close_empty_spec (rest : List Rune) (hrest : ∀ r, rest.head? = some r → r.cp ≠ RBRACE ∧ r.cp ≠ LBRACE)
+    (fuel : Nat) (l : L) (ht : l.tokRev = []) (h : l.right = asc RBRACE :: rest) (hfuel : l.right.length < fuel) :
+    ∃ l', lexTaskCommandsF fuel l = (l', .rightBrace) ∧ l'.tokRev = [] ∧ l'.right = asc RBRACE :: rest ∧
+      views l' = views l := by
+  obtain ⟨fuel0, rfl⟩ : ∃ k, fuel = k + 1 := ⟨fuel - 1, by omega⟩
+  have hp1 : (rest.take 2).map (·.cp) ≠ [LBRACE, LBRACE] := by
+    intro hp; obtain ⟨a, b, rs', h1, h2, _⟩ := pair_length hp
+    exact (hrest a (by simp [h1])).2 h2
+  have hp2 : (rest.take 2).map (·.cp) ≠ [RBRACE, RBRACE] := by
+    intro hp; obtain ⟨a, b, rs', h1, h2, _⟩ := pair_length hp
+    exact (hrest a (by simp [h1])).1 h2
+  have e := F_close fuel0 l (asc RBRACE) rest h rfl hp1 hp2
+  have hb : ((l.next).1.backup).tokRev = [] := by simp [ht]
+  have h1 : ((l.next).1.backup).lastIs SP = false := L.lastIs_nil hb _
+  have h2 : ((l.next).1.backup).lastIs CR = false := L.lastIs_nil hb _
+  have h3 : stripCR (l.next).1.backup = (l.next).1.backup := by unfold stripCR; simp [h2]
+  simp only [h1, Bool.false_eq_true, if_false, h3, hb, List.isEmpty_nil, Bool.not_true] at e
+  refine ⟨_, e, by simp, ?_, ?_⟩
+  · rw [skipWs_right, L.next_backup_right, h]; exact dropWhile_nonspace (by decide) _
+  · rw [views_skipWs, views_congr (L.next_backup_toks _)]
+
+/-- one-line style: `CR*`, at most one blank, and the closing brace after the last command `prev` held in
+    the token buffer: the command is emitted without the blank and the carriage returns -/
+theorem close_spec (prev crs sp rest lf : List Rune) (hne : prev ≠ []) (hprev : endsWithCp prev CR = false)
+    (hcrs : ∀ r ∈ crs, r.cp = CR) (hsp : sp = [] ∨ sp = [asc SP])
+    (hblank : crs = [] → sp = [] → endsWithCp prev SP = false)
+    (hrest : ∀ r, rest.head? = some r → r.cp ≠ RBRACE ∧ r.cp ≠ LBRACE)
+    (fuel : Nat) (l : L) (ht : l.tokRev = prev.reverse) (hlf : l.left = prev.reverse ++ lf)
+    (h : l.right = (crs ++ sp) ++ asc RBRACE :: rest) (hfuel : l.right.length < fuel) :
+    ∃ l', lexTaskCommandsF fuel l = (l', .rightBrace) ∧ l'.tokRev = [] ∧ l'.right = asc RBRACE :: rest ∧
+      views l' = views l ++ [(.command, prev)] := by
+  have hsp' : ∀ r ∈ sp, r.cp = SP := by
+    rcases hsp with rfl | rfl <;> simp
+  obtain ⟨fuel1, l1, e1, hf1, r1, t1, lf1, k1⟩ := scan_spec (crs ++ sp)
+    (cmdScanOK_crsp _ (fun r hr => by
+      rcases List.mem_append.1 hr with h' | h'
+      · exact Or.inl (hcrs r h')
+      · exact Or.inr (hsp' r h')))
+    (asc RBRACE :: rest) (FolOK.close rest hrest) fuel l h hfuel
+  obtain ⟨fuel2, rfl⟩ : ∃ k, fuel1 = k + 1 := ⟨fuel1 - 1, by simp at hf1; omega⟩
+  have hp1 : (rest.take 2).map (·.cp) ≠ [LBRACE, LBRACE] := by
+    intro hp; obtain ⟨a, b, rs', h1, h2, _⟩ := pair_length hp
+    exact (hrest a (by simp [h1])).2 h2
+  have hp2 : (rest.take 2).map (·.cp) ≠ [RBRACE, RBRACE] := by
+    intro hp; obtain ⟨a, b, rs', h1, h2, _⟩ := pair_length hp
+    exact (hrest a (by simp [h1])).1 h2
+  have e2 := F_close fuel2 l1 (asc RBRACE) rest r1 rfl hp1 hp2
+  -- the state after `backup`
+  generalize hm : (l1.next).1.backup = m at e2
+  have mt : m.tokRev = sp.reverse ++ (crs.reverse ++ prev.reverse) := by subst hm; simp [t1, ht]
+  have ml : m.left = sp.reverse ++ (crs.reverse ++ prev.reverse ++ lf) := by subst hm; simp [lf1, hlf]
+  have mr : m.right = asc RBRACE :: rest := by subst hm; simp [r1]
+  have mk : m.toks = l.toks := by subst hm; simp [k1]
+  -- dropping one trailing blank
+  have h2 : ∃ m2, (if m.lastIs SP then m.stepBack else m) = m2 ∧ m2.tokRev = crs.reverse ++ prev.reverse ∧
+      m2.left = crs.reverse ++ prev.reverse ++ lf ∧ m2.right = sp ++ asc RBRACE :: rest ∧ m2.toks = l.toks := by
+    rcases hsp with rfl | rfl
+    · -- no blank: the token does not end in one
+      have hno : m.lastIs SP = false := by
+        cases hcr : crs.reverse with
+        | cons x xs =>
+          have hx : x.cp = CR := hcrs x (by rw [← List.mem_reverse, hcr]; simp)
+          rw [L.lastIs_of (x := x) (ts := xs ++ prev.reverse) (lf := xs ++ prev.reverse ++ lf)
+            (by simp [mt, hcr]) (by simp [ml, hcr])]
+          simp [hx]
+        | nil =>
+          have hcrs0 : crs = [] := by simpa using hcr
+          have hb := hblank hcrs0 rfl
+          cases hp : prev.reverse with
+          | nil => exact absurd (by simpa using hp) hne
+          | cons x xs =>
+            have := head?_reverse_ne hb x (by simp [hp])
+            rw [L.lastIs_of (x := x) (ts := xs) (lf := xs ++ lf) (by simp [mt, hcr, hp]) (by simp [ml, hcr, hp])]
+            simpa using this
+      exact ⟨m, by simp [hno], by simpa using mt, by simpa using ml, by simpa using mr, mk⟩
+    · have mt' : m.tokRev = asc SP :: (crs.reverse ++ prev.reverse) := by simpa using mt
+      have ml' : m.left = asc SP :: (crs.reverse ++ prev.reverse ++ lf) := by simpa using ml
+      have hyes : m.lastIs SP = true := by rw [L.lastIs_of mt' ml']; rfl
+      obtain ⟨s1, s2, s3, s4⟩ := L.stepBack_of mt' ml'
+      exact ⟨m.stepBack, by simp [hyes], s1, s2, by rw [s3, mr]; rfl, by rw [s4, mk]⟩
+  obtain ⟨m2, hm2, m2t, m2l, m2r, m2k⟩ := h2
+  simp only [hm2] at e2
+  obtain ⟨c1, c2, c3, c4⟩ := stripCR_spec crs.reverse (by simpa using hcrs) prev.reverse lf (head?_reverse_ne hprev)
+    m2 m2t m2l
+  have hnonempty : (stripCR m2).tokRev.isEmpty = false := by
+    rw [c1]; cases hp : prev.reverse with
+    | nil => exact absurd (by simpa using hp) hne
+    | cons x xs => rfl
+  simp only [hnonempty, Bool.not_false, if_true] at e2
+  refine ⟨_, e1.trans e2, by simp, ?_, ?_⟩
+  · rw [skipWs_right, L.emit_right, c3, m2r, List.reverse_reverse, ← List.append_assoc]
+    have hall : ∀ x ∈ crs ++ sp, isSpace x = true := by
+      intro x hx
+      rcases List.mem_append.1 hx with h' | h'
+      · exact isSpace_of_cp (hcrs x h') isSpaceCp_CR
+      · exact isSpace_of_cp (hsp' x h') isSpaceCp_SP
+    rw [dropWhile_append_of_all _ _ _ hall]
+    exact dropWhile_nonspace (by decide) _
+  · rw [views_skipWs, views_emit, views_congr c4, views_congr m2k, c1]
+    simp
+
+/-! ## all commands of a body -/
+
+theorem FolOK.sep {sep : List Rune} (h : CmdSep sep) (more : List Rune) : FolOK (sep ++ more) := by
+  obtain ⟨crs, ws, hcrs, _, rfl⟩ := h
+  cases crs with
+  | nil => exact FolOK.of_head _ (by decide) (by decide)
+  | cons x xs =>
+    have hx : x.cp = CR := hcrs x (by simp)
+    exact FolOK.of_head _ (by rw [hx]; decide) (by rw [hx]; decide)
+
+theorem FolOK.more {cs : List (List Rune)} {prev b : List Rune} (h : MoreCmds cs prev b) (rest : List Rune)
+    (hrest : ∀ r, rest.head? = some r → r.cp ≠ RBRACE ∧ r.cp ≠ LBRACE) : FolOK (b ++ asc RBRACE :: rest) := by
+  cases h with
+  | done prev e he =>
+    rcases he with he | ⟨crs, sp, hcrs, hsp, rfl, _⟩
+    · exact FolOK.sep he _
+    · cases crs with
+      | cons x xs =>
+        have hx : x.cp = CR := hcrs x (by simp)
+        exact FolOK.of_head _ (by rw [hx]; decide) (by rw [hx]; decide)
+      | nil =>
+        rcases hsp with rfl | rfl
+        · exact FolOK.close rest hrest
+        · exact FolOK.of_head _ (by decide) (by decide)
+  | cons prev sep c cs rest' hsep _ _ =>
+    have := FolOK.sep hsep (c ++ rest' ++ asc RBRACE :: rest)
+    simpa using this
+
+/-- **the command loop**: with the command `prev` in the token buffer and the remaining commands `cs`
+    ahead, the loop emits `prev :: cs` and stops in front of the closing brace -/
+theorem moreCmds_spec {cs : List (List Rune)} {prev b : List Rune} (hm : MoreCmds cs prev b) :
+    ∀ (rest : List Rune), (∀ r, rest.head? = some r → r.cp ≠ RBRACE ∧ r.cp ≠ LBRACE) →
+    prev ≠ [] → endsWithCp prev CR = false →
+    ∀ (fuel : Nat) (l : L) (lf : List Rune), l.tokRev = prev.reverse → l.left = prev.reverse ++ lf →
+    l.right = b ++ asc RBRACE :: rest → l.right.length < fuel →
+    ∃ l', lexTaskCommandsF fuel l = (l', .rightBrace) ∧ l'.tokRev = [] ∧ l'.right = asc RBRACE :: rest ∧
+      views l' = views l ++ (prev :: cs).map (fun c => (TT.command, c)) := by
+  induction hm with
+  | done prev e he =>
+    intro rest hrest hne hprev fuel l lf ht hlf h hfuel
+    rcases he with ⟨crs, ws, hcrs, hws, rfl⟩ | ⟨crs, sp, hcrs, hsp, rfl, hblank⟩
+    · obtain ⟨fuel1, l1, e1, hf1, t1, r1, v1⟩ := sep_spec prev crs ws (asc RBRACE :: rest) lf hprev hcrs hws
+        (dropWhile_nonspace (by decide) _) fuel l ht hlf (by rw [h]; simp) hfuel
+      obtain ⟨l2, e2, t2, r2, v2⟩ := close_empty_spec rest hrest fuel1 l1 t1 r1 (by rw [r1]; exact hf1)
+      exact ⟨l2, e1.trans e2, t2, r2, by rw [v2, v1]; simp⟩
+    · obtain ⟨l1, e1, t1, r1, v1⟩ := close_spec prev crs sp rest lf hne hprev hcrs hsp hblank hrest fuel l ht hlf h hfuel
+      exact ⟨l1, e1, t1, r1, by rw [v1]; simp⟩
+  | cons prev sep c cs rest' hsep hc _ ih =>
+    intro rest hrest hne hprev fuel l lf ht hlf h hfuel
+    obtain ⟨crs, ws, hcrs, hws, rfl⟩ := hsep
+    -- the next command
+    obtain ⟨a, c', rfl, ha, hscan, hcr⟩ : ∃ a c', c = a :: c' ∧ isSpace a = false ∧ cmdScanOK (a :: c') = true ∧
+        endsWithCp (a :: c') CR = false := by
+      cases c with
+      | nil => exact absurd hc (by simp [NextCmdOK])
+      | cons a c' => exact ⟨a, c', rfl, hc.1, hc.2.1, hc.2.2⟩
+    obtain ⟨fuel1, l1, e1, hf1, t1, r1, v1⟩ := sep_spec prev crs ws ((a :: c') ++ (rest' ++ asc RBRACE :: rest)) lf hprev
+      hcrs hws (dropWhile_nonspace ha _) fuel l ht hlf (by rw [h]; simp) hfuel
+    obtain ⟨fuel2, l2, e2, hf2, r2, t2, lf2, k2⟩ := scan_spec (a :: c') hscan (rest' ++ asc RBRACE :: rest)
+      (FolOK.more ‹_› rest hrest) fuel1 l1 r1 (by rw [r1]; exact hf1)
+    obtain ⟨l3, e3, t3, r3, v3⟩ := ih rest hrest (by simp) hcr fuel2 l2 l1.left (by rw [t2, t1]; simp) lf2 r2
+      (by rw [r2]; exact hf2)
+    refine ⟨l3, e1.trans (e2.trans e3), t3, r3, ?_⟩
+    rw [v3, views_congr k2, v1]; simp
+
+/-! ## the body -/
+
+theorem lexLeftBrace_spec (l : L) (more : List Rune) (ht : l.tokRev = []) (h : l.right = asc LBRACE :: more) :
+    ∃ l', lexLeftBrace l = (l', .taskBody) ∧ l'.tokRev = [] ∧ l'.right = more.dropWhile isSpace ∧
+      views l' = views l ++ [vLBrace] := by
+  refine ⟨skipWs ((l.absorb 1).emit .lbrace), ?_, by simp, by simp [skipWs_right, h], by simp [h, ht, vLBrace]⟩
+  unfold lexLeftBrace
+  simp [L.atEOF, h]
+
+/-- `lexTaskBody` in front of the closing brace -/
+theorem lexTaskBody_close (l : L) (rest : List Rune) (h : l.right = asc RBRACE :: rest) :
+    ∃ l', lexTaskBody l = (l', .rightBrace) ∧ l'.tokRev = [] ∧ l'.right = asc RBRACE :: rest ∧ views l' = views l := by
+  have hr : (skipWs l).right = asc RBRACE :: rest := by
+    rw [skipWs_right, h]; exact dropWhile_nonspace (by decide) _
+  refine ⟨((skipWs l).next).1.backup, ?_, by simp, by simp [hr], ?_⟩
+  · unfold lexTaskBody
+    simp [L.atEOF, h, L.next_snd_eq, hr]
+  · rw [views_congr (L.next_backup_toks _), views_skipWs]
+
+/-- `lexTaskBody` in front of the first letter of the first command -/
+theorem lexTaskBody_letter (l : L) (a : Rune) (more : List Rune) (ha : isLetter a = true) (h : l.right = a :: more) :
+    ∃ l' lf, lexTaskBody l = (l', .taskCommands) ∧ l'.tokRev = [a] ∧ l'.left = a :: lf ∧ l'.right = more ∧
+      views l' = views l := by
+  have hr : (skipWs l).right = a :: more := by
+    rw [skipWs_right, h]; exact dropWhile_nonspace (isSpace_of_isLetter ha) _
+  have hrb : (a.cp == RBRACE) = false := by
+    cases hq : a.cp == RBRACE with
+    | false => rfl
+    | true => rw [isLetter_false_of_cp (by simpa using hq) (by decide)] at ha; cases ha
+  refine ⟨((skipWs l).next).1, (skipWs l).left, ?_, by rw [L.next_tokRev hr]; simp, L.next_left hr, by simp [hr], ?_⟩
+  · unfold lexTaskBody
+    simp [L.atEOF, h, L.next_snd_eq, hr, hrb, ha]
+  · rw [views_congr (L.next_toks _), views_skipWs]
+
+theorem lexRightBrace_spec (l : L) (rest : List Rune) (ht : l.tokRev = []) (h : l.right = asc RBRACE :: rest) :
+    ∃ l', lexRightBrace l = (l', .start) ∧ l'.tokRev = [] ∧ l'.right = rest ∧ views l' = views l ++ [vRBrace] := by
+  refine ⟨(l.absorb 1).emit .rbrace, ?_, by simp, by simp [h], by simp [h, ht, vRBrace]⟩
+  unfold lexRightBrace
+  simp [L.atEOF, h]
+
+/-- **the body**: from the opening brace to behind the closing brace -/
+theorem body_reaches (cmds : List (List Rune)) (b : List Rune) (hb : BodyText cmds b) (rest : List Rune)
+    (hrest : ∀ r, rest.head? = some r → r.cp ≠ RBRACE ∧ r.cp ≠ LBRACE) (l : L) (ht : l.tokRev = [])
+    (h : l.right = asc LBRACE :: (b ++ asc RBRACE :: rest)) :
+    ∃ l', Reaches l .leftBrace l' .start ∧ l'.tokRev = [] ∧ l'.right = rest ∧
+      views l' = views l ++ vLBrace :: cmds.map (fun c => (TT.command, c)) ++ [vRBrace] := by
+  obtain ⟨l1, e1, t1, r1, v1⟩ := lexLeftBrace_spec l _ ht h
+  cases hb with
+  | empty ws hws =>
+    have r1' : l1.right = asc RBRACE :: rest := by
+      rw [r1]; exact dropWhile_ws hws (by decide) _
+    obtain ⟨l2, e2, t2, r2, v2⟩ := lexTaskBody_close l1 rest r1'
+    obtain ⟨l3, e3, t3, r3, v3⟩ := lexRightBrace_spec l2 rest t2 r2
+    refine ⟨l3, (reach_leftBrace e1).trans ((reach_taskBody e2).trans (reach_rightBrace e3)), t3, r3, ?_⟩
+    rw [v3, v2, v1]; simp
+  | cmds ws c cs restb hws hc hmore =>
+    obtain ⟨a, c', rfl, ha, hscan, hcr⟩ : ∃ a c', c = a :: c' ∧ isLetter a = true ∧ cmdScanOK c' = true ∧
+        endsWithCp (a :: c') CR = false := by
+      cases c with
+      | nil => exact absurd hc (by simp [FirstCmdOK])
+      | cons a c' => exact ⟨a, c', rfl, hc.1, hc.2.1, hc.2.2⟩
+    have r1' : l1.right = a :: (c' ++ (restb ++ asc RBRACE :: rest)) := by
+      rw [r1]
+      have := dropWhile_ws hws (isSpace_of_isLetter ha) (c' ++ (restb ++ asc RBRACE :: rest))
+      simpa using this
+    obtain ⟨l2, lf, e2, t2, lf2, r2, v2⟩ := lexTaskBody_letter l1 a _ ha r1'
+    -- the command loop
+    obtain ⟨fuel3, l3, e3, hf3, r3, t3, lf3, k3⟩ := scan_spec c' hscan (restb ++ asc RBRACE :: rest)
+      (FolOK.more hmore rest hrest) (l2.right.length + 1) l2 r2 (by omega)
+    obtain ⟨l4, e4, t4, r4, v4⟩ := moreCmds_spec hmore rest hrest (by simp) hcr fuel3 l3 lf
+      (by rw [t3, t2]; simp) (by rw [lf3, lf2]; simp) r3 (by rw [r3]; exact hf3)
+    have e34 : lexTaskCommands l2 = (l4, .rightBrace) := by
+      unfold lexTaskCommands; rw [e3, e4]
+    obtain ⟨l5, e5, t5, r5, v5⟩ := lexRightBrace_spec l4 rest t4 r4
+    refine ⟨l5, (reach_leftBrace e1).trans ((reach_taskBody e2).trans ((reach_taskCommands e34).trans
+      (reach_rightBrace e5))), t5, r5, ?_⟩
+    rw [v5, v4, views_congr k3, v2, v1]; simp
+
 end Spok.RTT
